@@ -116,6 +116,15 @@ def r1_operator_tables(rule, root=None):
         rule.lost("the comparison-ban loop in tree::register")
     else:
         arr = A.strip(loops[0]["iter"])
+        while arr.get("k") in ("Ref", "Paren") or (arr.get("k") == "MethodCall" and arr["method"] in ("iter", "into_iter", "copied", "cloned")):
+            arr = A.strip(arr["e"] if "e" in arr else arr["recv"])
+        if arr.get("k") == "Path" and A.ident(arr):
+            # a named table: `const BANNED: [&str; 6] = [..];`
+            for it in A.load(TREE, root).get("items", []):
+                if it.get("k") in ("Const", "Static") and it.get("name") == A.ident(arr) and it.get("e") is not None:
+                    arr = A.strip(it["e"])
+                    while arr.get("k") == "Ref":
+                        arr = A.strip(arr["e"])
         ops = sorted(e["v"] for e in arr.get("elems", []) if e.get("k") == "Lit")
         want = sorted(["==", "!=", "<", ">", "<=", ">="])
         if ops == want:
@@ -130,7 +139,9 @@ def r1_operator_tables(rule, root=None):
             rule.bad("cmp|both", "both bad_cmp_tree_dyn and bad_cmp_dyn_tree must be registered for every comparison operator", A.where(reg, loops[0]))
     for name in ("bad_cmp_tree_dyn", "bad_cmp_dyn_tree"):
         f = A.find_fn(TREE, name, root=root)
-        if txt(f["body"]).endswith("Err(e.into())}"):
+        # every result of the function is an Err (whatever builds the message)
+        res = A.result_cases(A.inline_helpers(f)) if f.get("body") else []
+        if res and all(A.strip(v_).get("k") == "Call" and A.path_segs(A.strip(v_)["func"]) == ["Err"] for v_, _c in res):
             rule.ok("%s returns an error" % name)
         else:
             rule.bad("cmp|%s" % name, "%s must return an error" % name, A.where(f))
